@@ -73,8 +73,11 @@ def check_config(W, k, coloc, fam, rng, res):
     if any(calls[r] != calls[r0] for r in ranks):
         bad = [r for r in ranks if calls[r] != calls[r0]][0]
         return res.violation(f'group creation sequence differs between rank {r0} ({calls[r0][:6]}...) and rank {bad} ({calls[bad][:6]}...)', case)
-    if set(calls[r0]) != {tuple(sorted(p)) for p in wparts | rparts}:
-        return res.violation(f'groups created {sorted(set(calls[r0]))} are not exactly the worker and receiver groups', case)
+    # the statement fixes which groups EXIST (two partitions), not which handles an implementation chooses to create (e.g. it
+    # may skip singletons): a created group must be one of them; that the groups a rank USES are the right ones is checked below
+    foreign = set(calls[r0]) - {tuple(sorted(p)) for p in wparts | rparts}
+    if foreign:
+        return res.violation(f'groups created {sorted(foreign)} are neither gradient-worker nor gradient-receiver groups', case)
     digest = []
     for l in work:
         invs = {}
@@ -83,7 +86,9 @@ def check_config(W, k, coloc, fam, rng, res):
             if len(vals) != 1:
                 return res.violation(f'ranks disagree on inv_worker({l},{f}): {sorted(vals)}', case)
             invs[f] = vals.pop()
-        wg = {As[r].grad_worker_group(l) for r in ranks}
+        # a handle is the recorder's member tuple; None is the default (world) group
+        mem = lambda h: tuple(range(W)) if h is None else tuple(h)  # noqa: E731
+        wg = {mem(As[r].grad_worker_group(l)) for r in ranks}
         if len(wg) != 1:
             return res.violation(f'ranks disagree on the gradient-worker group of {l}: {sorted(wg)}', case)
         wg = set(wg.pop())
@@ -97,7 +102,7 @@ def check_config(W, k, coloc, fam, rng, res):
             return res.violation(f'get_factors({l}) = {As[r0].get_factors(l)}', case)
         for r in ranks:
             a = As[r]
-            rg = set(a.grad_receiver_group(l))
+            rg = set(mem(a.grad_receiver_group(l)))
             if frozenset(rg) not in rparts or r not in rg:
                 return res.violation(f'rank {r}: receiver group {sorted(rg)} of {l} is not the receiver partition containing the rank', case)
             if a.is_grad_worker(l) != (r in wg):
